@@ -260,9 +260,9 @@ def mk_operation(metaclass, o_tfr):
     run = interpret.run_operation
     
     if o_tfr.Instance_Based:
-        return lambda self, **kwargs: run(metaclass, label, action, kwargs, self)
+        return lambda self, /, **kwargs: run(metaclass, label, action, kwargs, self)
     else:
-        fn = lambda cls, **kwargs: run(metaclass, label, action, kwargs, None)
+        fn = lambda cls, /, **kwargs: run(metaclass, label, action, kwargs, None)
         return classmethod(fn)
 
 
